@@ -35,6 +35,8 @@ pub struct Opts {
     pub high_bytes: bool,
     /// a continuation directly before the end of the file
     pub cont_at_eof: bool,
+    /// a continuation before the value has any content (`k = \<LF>  v`), and tabs after a continuation
+    pub cont_leading_ws: bool,
     pub max_sections: usize,
     pub max_entries: usize,
 }
@@ -55,6 +57,7 @@ impl Opts {
             gix_only: true,
             high_bytes: true,
             cont_at_eof: true,
+            cont_leading_ws: true,
             max_sections: 6,
             max_entries: 5,
         }
@@ -278,9 +281,17 @@ impl Gen<'_, '_> {
         }
         let mut inq = false;
         let mut last_was_cont = false;
+        let mut has_content = false;
         for i in 0..nfrag {
             last_was_cont = false;
-            match self.t.weighted(&[8, 3, 3, 2, 2, if self.o.high_bytes { 1 } else { 0 }]) {
+            let mut kind = self.t.weighted(&[8, 3, 3, 2, 2, if self.o.high_bytes { 1 } else { 0 }]);
+            if kind == 4 && !self.o.cont_leading_ws && !has_content {
+                kind = 0;
+            }
+            if kind != 1 && kind != 4 {
+                has_content = true;
+            }
+            match kind {
                 0 => {
                     let w = self.t.string_of(if inq { WORD_Q } else { WORD }, 1, 5);
                     self.out.extend(w);
@@ -341,7 +352,12 @@ impl Gen<'_, '_> {
                 4 => {
                     self.out.push(b'\\');
                     self.eol();
-                    self.spaces(true);
+                    if self.o.cont_leading_ws {
+                        self.spaces(true);
+                    } else {
+                        let n = self.t.below(3);
+                        self.out.extend(std::iter::repeat(b' ').take(n));
+                    }
                     ef.continuation = true;
                     self.feat.continuation += 1;
                     last_was_cont = true;
@@ -599,6 +615,8 @@ pub struct MEntry {
     pub src: Vec<u8>,
     /// `gix_config::value::normalize(raw)`
     pub value: Vec<u8>,
+    /// whitespace between the name and the placeholder value of an implicit key (`k <LF>`)
+    pub implicit_trailing_ws: bool,
     /// a `Value` event followed `ValueNotDone` events (undocumented sequence, seen for `k = a\<LF><EOF>`);
     /// `File` then uses the `Value` event alone, and so does this model
     pub ill_formed: bool,
@@ -638,6 +656,7 @@ pub fn model_from_events(ev: &Events<'_>) -> Vec<MSection> {
                         raw: Vec::new(),
                         src: Vec::new(),
                         value: Vec::new(),
+                        implicit_trailing_ws: false,
                         ill_formed: false,
                     });
                     done = false;
@@ -645,6 +664,14 @@ pub fn model_from_events(ev: &Events<'_>) -> Vec<MSection> {
                 Event::KeyValueSeparator => {
                     if let Some(c) = cur.as_mut() {
                         c.implicit = false;
+                        c.implicit_trailing_ws = false;
+                    }
+                }
+                Event::Whitespace(_) => {
+                    if let (Some(c), false) = (cur.as_mut(), done) {
+                        if c.implicit {
+                            c.implicit_trailing_ws = true;
+                        }
                     }
                 }
                 Event::ValueDone(v) => {
